@@ -16,6 +16,15 @@ every node is the package's (default platform overlaid per key by the selected p
 Correspondence: the PARSED conf/flowir_instance.yaml (blueprint, variables, components, environments) equals
 coq/Reload/Model.v `flatten` of the package (check_case, evaluated inside Coq).
 
+Also generated (second round): (i) stage / global variables whose value holds %(replica)s TOGETHER with another
+reference (e.g. sw: "%(v2)s/run-%(replica)s") while the component shadows that other variable - the fixed finding F7e:
+the pinned instance(is_primitive=True) froze the other reference into the stored stage variable while the live
+experiment kept the value as written; (ii) packages given as one FlowIR file + a manifest whose entries become top-level
+folders of the instance that are symbolic links (:link) or copies (:copy), with direct references of components into
+them (shared/lookup.dat:copy), optionally next to a component of the same name: after the reload the folders are
+discovered by Manifest.fromDirectory on the instance directory and the references must still be read as references to
+folders (references, edges and the reload itself are compared).
+
 The configuration generator builds on harness/c04.py (same layer slots / clash patterns: an option or a variable
 defined independently on default/platform/foreign-platform global+stage blueprints, component, per-platform overrides,
 two user variable files) but draws schema-valid values, because a package must pass validation to be instantiated."""
@@ -38,9 +47,11 @@ ASSUMPTIONS = [
     'the theorems are about flatten_raw (the structural part of instance()); the value part (interpolation of the stored '
     'variables / blueprints / environments, conversion of typed leaves) is modelled (finish) and tied by the '
     'correspondence but only its conversion step and the closed-string case of interpolation are covered by theorems',
-    'the idempotence theorems (store.load.store = store) are per section of the structural part and assume the side layers '
-    'of a component are `clean` (no stage/override/$import/repeatInterval/isRepeat in blueprints and platform override); the '
-    'complement for repeatInterval is the open finding F7d',
+    'the idempotence theorems (store.load.store = store, per section and assembled for the whole document) are about the '
+    'structural part, conditional on the second flattening succeeding, and assume the side layers of a component are `clean` '
+    '(no stage/override/$import in blueprints and platform override; a repeatInterval there is allowed since F7d was repaired)',
+    'direct references into manifest (:link / :copy) top-level folders: the model stores references verbatim; that they are '
+    'still read as references to folders after the reload is checked on the implementation only (references, edges, reload)',
     'DoWhile instances (loop iterations before the reload) are covered by the predicate on the implementation only',
     'output / status-report / virtual-environments / application-dependencies / interface sections are left empty by the '
     'generator and not modelled',
@@ -168,15 +179,66 @@ def gen_conf_case(rng, dens=None):
     comp = doc['components'][0]
     args = get(comp, ('command', 'arguments'))
     put(comp, ('command', 'arguments'), ((args + ' ') if isinstance(args, str) else '') + 'src:ref')
-    if replicate:
+    replica_vars = rng.random() < 0.12
+    inj = 'none'
+    if replica_vars:
+        # F7e class: a stage (and sometimes a global) variable that mentions %(replica)s together with another variable,
+        # which the component (often) shadows.  Every component that sees such a variable must be replicated: the producer
+        # `src` replicates, `c` inherits the replication; a global one needs the consumer in stage 1 replicated as well.
+        replicate = True
+        glob = rng.random() < 0.35
+        inj = 'replica-in-stage-variable' + ('+global' if glob else '')
+        put(doc['components'][2], ('workflowAttributes', 'replicate'), rng.choice([2, 3]))
+        args = get(comp, ('command', 'arguments'))
+        shadow = []
+        for layer in ['ds'] + rng.sample(['ps', 'us'], rng.choice([0, 0, 1, 2])):
+            _, vd = layer_slot(doc, files, layer)
+            j = rng.randrange(6)
+            vd['sw'] = '%%(v%d)s/%s-run-%%(replica)s' % (j, layer)
+            shadow.append('v%d' % j)
+        args += ' %(sw)s'
+        if glob:
+            for layer in ['dg'] + rng.sample(['pg'], rng.choice([0, 1])):
+                _, vd = layer_slot(doc, files, layer)
+                j = rng.randrange(6)
+                vd['gw'] = '%s-g-%%(replica)s.%%(v%d)s' % (layer, j)
+                shadow.append('v%d' % j)
+            args += ' %(gw)s'
+        else:
+            put(doc['components'][1], ('workflowAttributes', 'aggregate'), True)
+        put(comp, ('command', 'arguments'), args + ' r%(replica)s')
+        for name in shadow:
+            if rng.random() < 0.7:
+                _, vd = layer_slot(doc, files, rng.choice(['cv', 'cv', 'ovp']))
+                vd[name] = 'shadow.' + name
+    elif replicate:
         put(comp, ('workflowAttributes', 'replicate'), rng.choice([2, 3, '%(n)s']))
         put(comp, ('command', 'arguments'), get(comp, ('command', 'arguments')) + ' r%(replica)s')
         put(doc['components'][1], ('workflowAttributes', 'aggregate'), True)
+    folders = {}
+    if rng.random() < 0.2:
+        # top-level folders of the instance that come from a manifest (symbolic link / copy) + direct references into them
+        for name, method in (('shared', 'link'), ('data2', 'copy'), ('lnk2', 'link')):
+            if rng.random() < 0.6:
+                folders[name] = method
+        if not folders:
+            folders['shared'] = 'link'
+        for name in sorted(folders):
+            for target in rng.sample(doc['components'], rng.choice([1, 1, 2])):
+                ref = '%s/%s:%s' % (name, rng.choice(c07_impl.FOLDER_FILES), rng.choice(['copy', 'ref', 'link']))
+                if ref.rsplit(':', 1)[0] in [r.rsplit(':', 1)[0] for r in target.get('references', [])]:
+                    continue
+                target.setdefault('references', []).append(ref)
+                if not ref.endswith(':copy') and target is not comp:
+                    put(target, ('command', 'arguments'), get(target, ('command', 'arguments')) + ' ' + ref)
+        if not replica_vars and rng.random() < 0.4:
+            # ... next to a component that has the name of a folder (a misread reference then becomes an edge)
+            name = rng.choice(sorted(folders))
+            doc['components'].append({'name': name, 'stage': rng.choice([0, 1]), 'command': {'executable': 'echo', 'arguments': name}})
     # (a package that references an undefined variable on the selected platform does not pass validation and is never
     #  instantiated; references that only a foreign platform can resolve are produced by the q layers)
-    inj = 'none'
     if rng.random() < 0.15:
-        inj = 'foreign-only-variable'
+        inj = inj + '+foreign-only-variable'
         doc['variables'].setdefault('q', {}).setdefault('global', {})['onlyq'] = 'Q'
         od, _ = layer_slot(doc, files, rng.choice(['qg', 'qs', 'ovq']))
         put(od, ('command', 'arguments'), 'q-args %(onlyq)s')
@@ -201,7 +263,10 @@ def gen_conf_case(rng, dens=None):
     if not doc['blueprint']:
         del doc['blueprint']
     doc['environments'] = gen_envs(rng)
-    return {'kind': 'conf', 'platform': platform, 'doc': doc, 'files': files, 'inj': inj, 'replicate': replicate}
+    case = {'kind': 'conf', 'platform': platform, 'doc': doc, 'files': files, 'inj': inj, 'replicate': replicate}
+    if folders:
+        case['folders'] = folders
+    return case
 
 
 _VALIDATOR = {}
@@ -217,7 +282,7 @@ def valid_package(case):
     F = _VALIDATOR['F']
     try:
         conc = F.FlowIRConcrete(copy.deepcopy(case['doc']), case['platform'], {})
-        return not conc.validate()
+        return not conc.validate(top_level_folders=sorted(case.get('folders') or {}))
     except Exception:
         return False
 
@@ -273,11 +338,31 @@ def repeat_class(case):
     return False
 
 
+def replica_class(case):
+    """F7e (fixed): a stage variable (of the default or the selected platform, or of a user variable file) whose value holds
+    %(replica)s together with another variable reference"""
+    if case['kind'] != 'conf':
+        return False
+    import re
+    vs = case['doc'].get('variables', {})
+    stage_dicts = []
+    for P in ('default', case['platform']):
+        stage_dicts += list((vs.get(P, {}).get('stages', {}) or {}).values())
+    for f in case['files']:
+        stage_dicts += list((f.get('stages', {}) or {}).values())
+    for d in stage_dicts:
+        for v in (d or {}).values():
+            if isinstance(v, str) and '%(replica)s' in v and re.search(r'%\((?!replica\))[A-Za-z0-9_.-]+\)s', v):
+                return True
+    return False
+
+
 # ------------------------------------------------------------------ predicate
 SNAP_KEYS = [('nodes', 'set of components'), ('edges', 'dataflow edges'), ('conf', 'resolved configuration of a component'),
              ('raw', 'unresolved configuration of a component'), ('refs', 'data references of a component'),
              ('env', 'environment of a component'), ('loops', 'state of a DoWhile loop'),
-             ('placeholders', 'loop placeholders')]
+             ('placeholders', 'loop placeholders'),
+             ('folders', 'set of manifest folders known as top-level folders of the experiment')]
 
 
 def first_diff(a, b, pre=''):
@@ -325,6 +410,9 @@ def predicate(ctx, case, obs):
                 break
     if len(obs['reloads']) < 2:
         ctx.fail(rep, 'second reload missing', [])
+    if case.get('folders') and live.get('folders') != sorted(case['folders']):
+        ctx.fail(dict(rep, known=live.get('folders')),
+                 'a top-level folder that the manifest of the package declares is not known to the experiment', [])
     # store . load . store = store: the stored description (the YAML document; the order of the keys inside a mapping is
     # not part of it - override_object iterates a set) is unchanged by every load/store cycle
     for i, again in enumerate(obs['stored_again']):
@@ -418,6 +506,11 @@ def explore(ctx, cases, parallel=True):
             ctx.count('inject=%s' % case.get('inj'))
             ctx.count('env_on_default_and_platform=%s' % env_class(case))
             ctx.count('repeat_interval_not_from_component=%s' % repeat_class(case))
+            ctx.count('stage_variable_with_replica_and_other_reference=%s' % replica_class(case))
+            ctx.count('manifest_folders=%s' % ','.join('%s:%s' % kv for kv in sorted((case.get('folders') or {}).items())))
+            if case.get('folders'):
+                names = set(c['name'] for c in case['doc']['components'])
+                ctx.count('component_named_like_a_folder=%s' % bool(names & set(case['folders'])))
         else:
             ctx.count('loop_iterations=%d' % case['k'])
         if 'error' in obs:
@@ -427,6 +520,9 @@ def explore(ctx, cases, parallel=True):
             ctx.case(case, False)
             continue
         created += 1
+        for name, method in sorted((case.get('folders') or {}).items()):
+            if obs.get('folder_is_link', {}).get(name) != (method == 'link'):
+                raise RuntimeError('C07 driver: manifest folder %s (%s) was not deployed as declared' % (name, method))
         ctx.case(case, nontrivial(case, obs))
         ctx.count('nodes=%d' % len(obs['live']['nodes']))
         predicate(ctx, case, obs)
@@ -476,7 +572,10 @@ def run(ctx):
                 'consumer, aggregating consumer), 14 schema-valid options x 11 layers and 8 variables x 15 layers (C04 '
                 'layer slots: default/platform/foreign global+stage blueprints and variables, two user variable files, '
                 'component, override per platform), environments e/f with 4 keys on every platform independently, '
-                'YAML-trap strings as variable values, 15% with a variable only a foreign platform defines; plus DoWhile packages of the C05 '
+                'YAML-trap strings as variable values, 15% with a variable only a foreign platform defines, 12% with stage (and global) '
+                'variables holding %(replica)s next to another reference that the component often shadows (all consumers replicated), 20% '
+                'as one FlowIR file + manifest with :link / :copy top-level folders and direct references into them (40% of those next to a '
+                'component named like a folder), 6% with a repeatInterval in a blueprint / override layer; plus DoWhile packages of the C05 '
                 'generator with k = 0..3 (quick) further iterations stored before the reload; every case: create the '
                 'instance, reload twice; non-trivial = selected platform is not default and >= 2 options/variables are '
                 'defined by >= 2 layers of that platform, or a loop with >= 1 further iteration; distinct by the case')
